@@ -75,6 +75,8 @@ Definition unprotect_aead_pre : M apre :=
   (if inuse && negb inplace && negb (hdr_cc pkt =? 0) then exit_with st_cryptex_err else ret tt) ;;;
   (if u64 (len - tag_len - s_mki_size st) <? u64 (enc_start + (if inplace then hdr_cc pkt * 4 else 0))
    then exit_with st_parse_err else ret tt) ;;;
+  (if inuse && (u64 (len - tag_len - s_mki_size st) <? u64 (hdr_len pkt + xl))
+   then exit_with st_parse_err else ret tt) ;;;
   let enc_len := u64 (len - enc_start - s_mki_size st) in
   (if enc_len <? tag_len then exit_with st_cipher_fail else ret tt) ;;;
   (if b_cap b <? u64 (len - s_mki_size st - tag_len) then exit_with st_buffer_small else ret tt) ;;;
@@ -93,10 +95,6 @@ Definition unprotect_aead_post (u : apre) : M Z :=
   let inuse := a_inuse u in let inplace := a_inplace u in
   charge_key r0 (a_ki u) ;;;
   st <- get_stream r0 ;;
-  (match k_xtn_c k with
-   | Some xk => if hdr_x pkt =? 1 then process_xtn st pkt (cipher_start xk (xtn_iv (a_ssrc u) (a_est u))) else ret tt
-   | None => ret tt
-   end) ;;;
   (if inuse then
      (if inplace then cryptex_restore pkt else ret tt) ;;;
      h <- rd_dst (hdr_len pkt) 2 ;;
@@ -105,6 +103,10 @@ Definition unprotect_aead_post (u : apre) : M Z :=
      else if profile =? cryptex_two_byte_profile_c then set_profile pkt xtn_hdr_two_byte_profile_c
      else ret tt
    else ret tt) ;;;
+  (match k_xtn_c k with
+   | Some xk => if hdr_x pkt =? 1 then process_xtn st pkt (cipher_start xk (xtn_iv (a_ssrc u) (a_est u))) else ret tt
+   | None => ret tt
+   end) ;;;
   check_direction r0 dir_srtp_receiver_c ;;;
   r <- materialize r0 (a_ssrc u) ;;
   st2 <- get_stream r ;;
@@ -118,7 +120,7 @@ Proof.
   do 5 split_step.
   apply meq_step; intros [[est delta] adv]; cbv beta iota zeta.
   apply meq_step; intros [ki k]; cbv beta iota zeta.
-  do 10 split_step.
+  do 11 split_step.
   destruct (gcm_open _ _ _ _ _ _) as [s o].
   split_step.
   intros w. reflexivity.
@@ -211,6 +213,7 @@ Proof.
   apply sp_bind; [apply sp_keys_by_packet|intros [ki k]].
   apply sp_bind; [sp_auto|intros inuse].
   apply sp_bind; [sp_auto|intros xl].
+  apply sp_bind; [sp_auto|intros _].
   apply sp_bind; [sp_auto|intros _].
   apply sp_bind; [sp_auto|intros _].
   apply sp_bind; [sp_auto|intros _].
@@ -341,15 +344,15 @@ Proof.
   apply ex_bind; [apply exg_charge_key; assumption|intros _].
   apply ex_bind; [apply ex_get_stream; exact F1|intros st].
   apply ex_bind.
-  { destruct (k_xtn_c (a_k u)) eqn:EK; [|apply ex_ret].
-    destruct (hdr_x (a_pkt u) =? 1) eqn:EX; [|apply ex_ret].
-    apply exg_process_xtn. right; right; left. split; [reflexivity|]. split; [apply Z.eqb_eq; exact EX|rewrite EK; discriminate]. }
-  intros _.
-  apply ex_bind.
   { apply ex_if; [|apply ex_ret].
     apply ex_bind; [apply ex_if; [apply exg_cryptex_restore|apply ex_ret]|intros _].
     apply ex_bind; [apply ex_rd_dst|intros h].
     apply ex_if; [apply exg_set_profile|]. apply ex_if; [apply exg_set_profile|apply ex_ret]. }
+  intros _.
+  apply ex_bind.
+  { destruct (k_xtn_c (a_k u)) eqn:EK; [|apply ex_ret].
+    destruct (hdr_x (a_pkt u) =? 1) eqn:EX; [|apply ex_ret].
+    apply exg_process_xtn. right; right; left. split; [reflexivity|]. split; [apply Z.eqb_eq; exact EX|rewrite EK; discriminate]. }
   intros _.
   apply ex_bind; [apply exg_check_direction; exact F1|intros _].
   apply ex_bind; [apply exg_materialize; assumption|intros r].
@@ -525,18 +528,18 @@ Proof.
   apply xe_bind; [apply xi_charge_key; assumption|intros _].
   apply xe_bind; [apply xi_sp; [apply sp_get_stream|apply ex_get_stream; exact F1]|intros st].
   apply xe_bind.
-  { destruct (k_xtn_c (a_k u)) eqn:EK; [|apply xi_ret].
-    destruct (hdr_x (a_pkt u) =? 1) eqn:EX; [|apply xi_ret].
-    apply xi_sp; [unfold process_xtn; sp_auto|].
-    apply exg_process_xtn. right; right; left. split; [reflexivity|]. split; [apply Z.eqb_eq; exact EX|rewrite EK; discriminate]. }
-  intros _.
-  apply xe_bind.
   { apply xi_sp.
     - unfold cryptex_restore, set_profile. sp_auto.
     - apply ex_if; [|apply ex_ret].
       apply ex_bind; [apply ex_if; [apply exg_cryptex_restore|apply ex_ret]|intros _].
       apply ex_bind; [apply ex_rd_dst|intros h].
       apply ex_if; [apply exg_set_profile|]. apply ex_if; [apply exg_set_profile|apply ex_ret]. }
+  intros _.
+  apply xe_bind.
+  { destruct (k_xtn_c (a_k u)) eqn:EK; [|apply xi_ret].
+    destruct (hdr_x (a_pkt u) =? 1) eqn:EX; [|apply xi_ret].
+    apply xi_sp; [unfold process_xtn; sp_auto|].
+    apply exg_process_xtn. right; right; left. split; [reflexivity|]. split; [apply Z.eqb_eq; exact EX|rewrite EK; discriminate]. }
   intros _.
   apply xe_bind; [apply xi_check_direction; exact F1|intros _].
   apply xe_bind; [apply xi_materialize; assumption|intros r].
@@ -575,7 +578,7 @@ Proof.
   do 4 (apply r_bind; intros ?).
   apply r_bind; intros [[est delta] adv].
   apply r_bind; intros [ki k].
-  do 10 (apply r_bind; intros ?).
+  do 11 (apply r_bind; intros ?).
   destruct (gcm_open _ _ _ _ _ _) as [s o] eqn:G.
   destruct (s =? st_ok) eqn:ES; cbn [negb]; [|apply r_bind_exit].
   apply Z.eqb_eq in ES. subst s.
